@@ -103,7 +103,7 @@ def run_shard(args):
     rc, o = sh([HARNESS, req, out], timeout=3000)
     if rc != 0:
         return {"error": "harness rc=%d %s" % (rc, o[-500:])}
-    rc2, o2 = sh([DRIVER, out + ".cases"], timeout=3000)
+    rc2, o2 = sh("ulimit -s unlimited 2>/dev/null || ulimit -s 1000000; exec %s %s.cases" % (DRIVER, out), timeout=3000)
     if rc2 != 0:
         return {"error": "driver rc=%d %s" % (rc2, o2[-500:])}
     with open(out + ".impl") as f:
